@@ -8,7 +8,10 @@ class ToGFA2:
       if isinstance(oline.line, gfapy.line.segment.GFA1):
         items.append(str(oline))
       elif isinstance(oline.line, gfapy.line.edge.Link):
-        items.append(oline.line.eid + str(oline.orient))
+        if not oline.line.get("ID") and oline.line.is_connected():
+          # the edge needs an identifier to be mentioned in the O line
+          oline.line.set("ID", self._gfa.unused_name())
+        items.append(str(oline.line.eid) + str(oline.orient))
     a = ["O"]
     a.append(self.field_to_s("path_name"))
     a.append(" ".join(items))
